@@ -77,6 +77,10 @@ def run(ctx, chk, tier):
             lo_side, hi_side = (App("getitem", (NEG, Const(-1))), App("getitem", (POS, Const(0)))) if sc == "pos" else (App("getitem", (POS, Const(-1))), App("getitem", (NEG, Const(0))))
             strict = cmp0("lt", to_poly(sub(lo_side, hi_side)))
             nroot = 0
+            rets = split_selected_returns(rets, hp, hn)
+            if len(rets) < 3 or any(o.unmodelled for o in rets):
+                chk.unknown("R06.1", "eer() %s: %d return paths" % (tag, len(rets)))
+                continue
             for i, o in enumerate(rets):
                 if not (isinstance(o.value, Tup) and len(o.value.items) == 2):
                     chk.unknown("R06.1", "eer() %s returns %s" % (tag, show(o.value, 80)))
@@ -135,8 +139,15 @@ def run(ctx, chk, tier):
                     why = "the midpoint/either setter only when both hard fractions coincide (guard isclose(hard_pos_ratio, hard_neg_ratio))"
                 else:
                     cands, why = [tf, tn_, mid], "threshold_at_fpr(e), threshold_at_fnr(e) or their midpoint"
+                # a setter applied to a constant k that the path condition equates with the EER (a memoised end point) is setter(EER)
+                for a in list(atoms_of(t)):
+                    if isinstance(a, App) and a.fn in ("TFPR", "TFNR") and len(a.args) == 1 and a.args[0] != e and to_poly(a.args[0]) is not None \
+                            and pc_value(o.pc, compare("==", e, a.args[0])) is True:
+                        t = subst(t, {a: App(a.fn, (e,))})
                 if any(same(t, c) for c in cands):
                     chk.hold("R06.3", inst + ":threshold", "threshold = setter(EER) [%s]" % kind)
+                elif any(isinstance(a, App) and (a.fn.startswith("dict.") or a.fn.startswith("ext:")) for a in atoms_of(t)):
+                    chk.unknown("R06.3", "%s: threshold %s is read from a container the analysis cannot resolve" % (inst, show(t, 120)))
                 else:
                     chk.violation("R06.3", EERQ, tag + ":threshold-of-eer:" + kind, "%s on path [%s]" % (show(t, 160), pc_text(o)[-160:]), why, ctx.where(EERQ))
             if nroot == 0:
@@ -172,6 +183,46 @@ def prerequisites(ctx, chk, tier):
     # no in-place write to the score arrays and no unsound memo in the functions eer() composes
     from . import c10
     c10.purity(ctx, chk, only=("Scores.eer", "Scores.threshold_at_fpr", "Scores.threshold_at_fnr", "Scores.fpr", "Scores.fnr", "Scores.cm"), strict=False)
+
+
+def split_selected_returns(rets, hp, hn):
+    """A return whose (threshold, eer) components are selections `ite(c, ., .)` on one condition is two paths (c true / c false);
+    min(hp, hn) is resolved under the path condition.  (Merged `elif ...: return a, b` arms and a shared `max_eer` local.)"""
+    import copy
+    out = []
+
+    def resolve(v, pc):
+        lt = cmp0("lt", to_poly(sub(hp, hn)))
+        k = pc_value(pc, lt)
+        if k is None or not hasattr(v, "key"):
+            return v
+        mn = mk_app("min", [hp, hn])
+        if isinstance(mn, App) and mn.fn == "min":
+            return subst(v, {mn: hp if k else hn})
+        return v
+
+    def rec(o, depth=0):
+        v = o.value
+        if isinstance(v, Tup) and len(v.items) == 2 and depth < 3:
+            conds = [x.args[0] for x in v.items if isinstance(x, App) and x.fn == "ite"]
+            if conds:
+                c = conds[0]
+                for truth in (True, False):
+                    o2 = copy.copy(o)
+                    o2.pc = list(o.pc) + [(c, truth)]
+                    o2.value = Tup([x.args[1 if truth else 2] if isinstance(x, App) and x.fn == "ite" and x.args[0] == c else x for x in v.items])
+                    rec(o2, depth + 1)
+                return
+        if isinstance(v, Tup):
+            o2 = copy.copy(o)
+            o2.value = Tup([resolve(x, o.pc) for x in v.items])
+            o2.pc = [(resolve(c, o.pc), t_) for c, t_ in o.pc]
+            out.append(o2)
+        else:
+            out.append(o)
+    for o in rets:
+        rec(o)
+    return out
 
 
 def pc_value(pc, cond):
